@@ -182,7 +182,7 @@ def gen_library(cases, with_class, extra_options=None, language="c++", ns="ns1",
     y = {"library": "sub", "cxx_header": "sub.hpp",
          "options": dict({"debug": True, "wrap_fortran": False, "wrap_python": False, "wrap_lua": False}, **(extra_options or {})),
          "declarations": [{"decl": "namespace ns1", "declarations": decls}] if ns else decls}
-    hpp = ["#ifndef SUB_HPP", "#define SUB_HPP", "#include <string>", "#include <vector>", "namespace ns1 {" if ns else "",
+    hpp = ["#ifndef SUB_HPP", "#define SUB_HPP", "#include <stdint.h>", "#include <stddef.h>", "#include <string>", "#include <vector>", "namespace ns1 {" if ns else "",
            "enum Color { RED = 1, BLUE = 5 };", "struct Pt { int x; double y; };", "typedef int TypeID;", "typedef char Name;"]
     cpp = ['#include "sub.hpp"', '#include "vt.h"', "#include <cstring>", "#include <cstdio>", "namespace ns1 {" if ns else ""]
     for ci, c in enumerate(cases):
@@ -294,6 +294,9 @@ def c_expected_types(c, tt, nsup):
     for p in c["params"][:nsup]:
         r = row(p, tt)
         k = p["kind"] if p["kind"] != "T_v" else {"int": "int_v", "double": "double_v"}[tt]
+        if "ctype" in r:
+            out.append(r["ctype"].replace(" ", ""))
+            continue
         ct = {"tdint_v": "int", "tdstr_in": "constchar*", "int_v": "int", "long_v": "long", "double_v": "double", "bool_v": "bool", "enum_v": "int",
               "int_pin": "constint*", "int_pout": "int*", "int_pinout": "int*", "int_ref": "int*", "dbl_cref": "constdouble*",
               "dbl_pout": "double*", "bool_pinout": "bool*", "cstr_in": "constchar*", "str_cref": "constchar*",
